@@ -64,6 +64,9 @@ def enc(fr: dict[str, Any], src: int, tgt: int, ver: int, req: bytes | None) -> 
         return doip(ver, 0x8002, struct.pack("!HHB", tgt, src, 0) + r[:n])
     if t == "ack-wrong-echo":
         return doip(ver, 0x8002, struct.pack("!HHB", tgt, src, 0) + bytes([(r[:1] or b"\x00")[0] ^ 0xFF]) + r[1:3])
+    if t == "ack-longer-echo":
+        # acknowledges a longer message that merely starts with this one (the late ack of an earlier, longer request)
+        return doip(ver, 0x8002 if fr.get("positive", True) else 0x8003, struct.pack("!HHB", tgt, src, 0 if fr.get("positive", True) else 2) + r + (fr.get("extra") or b"\x90"))
     if t == "ack-wrong-pair":
         return doip(ver, 0x8002, struct.pack("!HHB", *_pair(fr, src, tgt), 0) + r)
     if t == "nack":
@@ -105,10 +108,12 @@ addr16 = st.integers(0, 0xFFFF)
 def frame_s(draw, reactive: bool) -> dict[str, Any]:
     kinds = ["diag", "diag", "diag-other", "alive", "alive", "unknown", "generic-nack", "stray-rar"]
     if reactive:
-        kinds += ["ack-wrong-echo", "ack-wrong-pair"]
+        kinds += ["ack-wrong-echo", "ack-wrong-pair", "ack-longer-echo"]
     k = draw(st.sampled_from(kinds))
     if k == "ack-wrong-echo":
         return {"t": k}
+    if k == "ack-longer-echo":
+        return {"t": k, "extra": draw(st.binary(min_size=1, max_size=3)), "positive": draw(st.booleans())}
     # foreign address pairs: fully random, or differing from ours in exactly one of the two addresses
     # ("S"/"T" are replaced by the case's source/target address when the frame is encoded)
     pair = draw(st.sampled_from(["rand", "src-only-differs", "dst-only-differs", "swapped"]))
